@@ -9,11 +9,14 @@ import (
 
 var (
 	Literals = []string{"a", "b", "c", "ab", "users", "x1", "A", "a.b", "v1", "123", "abc", "z-0", "index.json", "a-x", "c.foo", "b_v2"}
-	Suffixes = []string{".json", ".foo", "-x", "_v2"}
-	Verbs    = []string{"cancel", "run", "Verb"}
-	Methods  = []string{"GET", "POST", "PUT", "DELETE", "PATCH", "HEAD"}
-	Medias   = []string{"application/json", "application/xml", "text/plain", "application/x-verif"}
-	VarVals  = []string{"index", "a", "x", "42", "a.b", "A", "ünï", "p:q", "x%2Fy", "abc", "007", "a b", "{x}", "v1", "z-0", "q.json", "longlonglonglonglonglonglonglonglonglonglonglonglonglonglonglonglonglonglonglong"}
+	// ExoticLits are literal route segments that need escaping on the wire (the routers see the decoded path);
+	// not used in root paths: net/http's ServeMux gives blanks and braces in patterns a meaning of their own
+	ExoticLits = []string{"ünï", "a b", "x+y", "q@r", "50%", "a,b", "(x)", "日本", "a=b", "~t", "$1", "a;b"}
+	Suffixes   = []string{".json", ".foo", "-x", "_v2"}
+	Verbs      = []string{"cancel", "run", "Verb"}
+	Methods    = []string{"GET", "POST", "PUT", "DELETE", "PATCH", "HEAD"}
+	Medias     = []string{"application/json", "application/xml", "text/plain", "application/x-verif"}
+	VarVals    = []string{"index", "a", "x", "42", "a.b", "A", "ünï", "p:q", "x%2Fy", "abc", "007", "a b", "{x}", "v1", "z-0", "q.json", "longlonglonglonglonglonglonglonglonglonglonglonglonglonglonglonglonglonglonglong"}
 )
 
 // GenOpts selects the template fragment and table shape.
@@ -35,6 +38,7 @@ type GenOpts struct {
 	Nested     bool     // literal roots that nest (/, /a, /a/b)
 	Methods    []string // method pool (nil: all six)
 	OddMethods bool     // now and then a method outside the usual six (extension methods, OPTIONS)
+	Twins      bool     // now and then a second route with the same method and path but other Consumes/Produces
 	MinSvcs    int
 }
 
@@ -57,6 +61,9 @@ func (g *genState) seg(root bool, last bool) Seg {
 	switch {
 	case k < 45:
 		s = Seg{Kind: Lit, Lit: r.Pick(Literals)}
+		if !root && k < 5 {
+			s.Lit = r.Pick(ExoticLits)
+		}
 	case k < 70 || g.o.PlainOnly:
 		s = Seg{Kind: Var, Name: g.name()}
 	case k < 85 && !g.o.NoRegex:
@@ -211,6 +218,24 @@ func GenTable(r *core.Rand, o GenOpts) *Table {
 			}
 			rid++
 			svc.Routes = append(svc.Routes, rs)
+			if o.Twins && !o.Distinct && r.Chance(1, 5) {
+				tw := rs
+				tw.ID = rid
+				rid++
+				tw.Consumes, tw.Produces, tw.NoCT = nil, nil, nil
+				if r.Chance(2, 3) {
+					tw.Consumes = g.mediaList(2)
+				}
+				if r.Chance(1, 2) {
+					tw.Produces = g.mediaList(2)
+				}
+				if r.Chance(1, 2) {
+					// the catch-all twin first
+					svc.Routes[len(svc.Routes)-1], tw = tw, svc.Routes[len(svc.Routes)-1]
+					svc.Routes[len(svc.Routes)-1].ID, tw.ID = tw.ID, svc.Routes[len(svc.Routes)-1].ID
+				}
+				svc.Routes = append(svc.Routes, tw)
+			}
 		}
 		if len(svc.Routes) > 0 {
 			t.Svcs = append(t.Svcs, svc)
